@@ -141,6 +141,19 @@ CHECKS["C02"] = dict(
          "non-equivalent descriptions).",
     design_ref="DESIGN.md section 5 C02")
 
+CHECKS["C03"] = dict(
+    technique="TLA+ big-step evaluator KgEval.tla (value of the body under substitution) evaluated by TLC as oracle for generated "
+              "bodies x arguments; every call form and projection fill order replayed into KlongInterpreter; fault sequences "
+              "recorded (snapshots, context depth, follow-up vs. twin) and judged by TLC against FrameAbs.tla",
+    text="For ~700 (thorough ~8k) in-domain (body, arguments) pairs TLC computes the value of the substituted body; the interpreter "
+         "must return it through direct call, inline lambda, variable, @, adverb verb, .f recursion and through every projection "
+         "pattern of arity 2/3 in every fill order; conditionals over 13 truth classes must run exactly the selected branch; a failing "
+         "call at 15 sub-expression positions of three nested calls with locals must leave variables, context depth and later "
+         "programs as the frame discipline prescribes.",
+    note="Trusted: TLC, KgEval/KgVerbs transcription, snapshot projection of the interpreter context. Bodies use + - * , # and "
+         "negation over x y z, literals and two globals.",
+    design_ref="DESIGN.md section 5 C03")
+
 NOT_YET = {}
 
 
